@@ -176,6 +176,49 @@ func c02GenCasc(r *Rand, maxNodes int, pFail int) c02Casc {
 	return c
 }
 
+// c02TinyPlans enumerates "W<w>,F<f> <casc>" for all cascades with <= 3 events (rule lists o, x, ox,
+// xo; skipped and zero-rule events), workers 1..2, failOnFirstError on/off, both wait modes.
+func c02TinyPlans() []string {
+	kinds := []string{"t.o", "t.x", "t.ox", "t.xo", "s.-", "z.-"}
+	nrules := func(k string) int {
+		if k[0] != 't' {
+			return 0
+		}
+		return len(k) - 2
+	}
+	var shapes []string
+	for _, k0 := range kinds {
+		shapes = append(shapes, "-.-."+k0)
+		for r1 := 0; r1 < nrules(k0); r1++ {
+			for _, k1 := range kinds {
+				two := fmt.Sprintf("-.-.%s/0.%d.%s", k0, r1, k1)
+				shapes = append(shapes, two)
+				for par, pk := range []string{k0, k1} {
+					for r2 := 0; r2 < nrules(pk); r2++ {
+						if par == 0 && r2 < r1 {
+							continue // children of the root are listed in rule order
+						}
+						for _, k2 := range kinds {
+							shapes = append(shapes, fmt.Sprintf("%s/%d.%d.%s", two, par, r2, k2))
+						}
+					}
+				}
+			}
+		}
+	}
+	var out []string
+	for _, sh := range shapes {
+		for _, w := range []int{1, 2} {
+			for _, f := range []int{0, 1} {
+				for _, m := range []string{"w", "a"} {
+					out = append(out, fmt.Sprintf("W%d,F%d %s=%s", w, f, m, sh))
+				}
+			}
+		}
+	}
+	return out
+}
+
 // ---------------------------------------------------------------- run state, hook handler
 
 type c02State struct {
@@ -188,6 +231,7 @@ type c02State struct {
 	nextID  map[int]int            // cascade -> next monitor id
 	goIdx   map[uint64]int         // goroutine id -> worker index
 	trace   map[int][]string       // cascade -> tokens
+	gtrace  []string               // all tokens in global order, <cascade>:<token>
 	hooks   int                    // hook events seen
 	parked  bool                   // a task is parked between SetErrors and Finish
 	obsDone int                    // completed AllErrors calls of the error observer
@@ -227,6 +271,7 @@ func (st *c02State) rec(root uint64, tok string) {
 		return
 	}
 	st.trace[ci] = append(st.trace[ci], tok)
+	st.gtrace = append(st.gtrace, strconv.Itoa(ci)+":"+tok)
 }
 
 func (st *c02State) id(mon uint64) int {
@@ -805,11 +850,7 @@ func c02Run(payload string) string {
 	defer st.mu.Unlock()
 	if st.hooks > 0 && allRet {
 		CountRun("traces")
-		var ts []string
-		for ci := range plan.cascs {
-			ts = append(ts, strings.Join(st.trace[ci], ","))
-		}
-		result += " ~ " + strings.Join(ts, " ; ")
+		result += " ~ " + strings.Join(st.gtrace, ",")
 	}
 	if !allRet {
 		c02Stuck(result)
@@ -1034,11 +1075,7 @@ func c02RunEcal(plan *c02Plan, st *c02State) string {
 	defer st.mu.Unlock()
 	if st.hooks > 0 && allRet {
 		CountRun("traces")
-		var ts []string
-		for ci := range plan.cascs {
-			ts = append(ts, strings.Join(st.trace[ci], ","))
-		}
-		result += " ~ " + strings.Join(ts, " ; ")
+		result += " ~ " + strings.Join(st.gtrace, ",")
 	}
 	if !allRet {
 		c02Stuck(result)
@@ -1139,6 +1176,27 @@ func init() {
 				g.Count("corpus")
 				emit(w, false, 1, []c02Casc{lit(corpus[0]), lit(corpus[1]), lit(corpus[2])})
 				emit(w, true, 5, []c02Casc{lit(corpus[1]), lit(corpus[1])})
+			}
+			// tiny plans (<= 3 events, <= 2 workers): every one of them is explored exhaustively on the
+			// transition system by the driver; the real code runs each several times under different
+			// schedule modes and the states its traces visit are compared with the explored space
+			tiny := c02TinyPlans()
+			reps := 24
+			if !g.Thorough() {
+				// a seed-dependent sample of 150 plans
+				var pick []string
+				for len(pick) < 150 {
+					pick = append(pick, tiny[g.R.Intn(len(tiny))])
+				}
+				tiny = pick
+			} else {
+				reps = 12
+			}
+			for _, t := range tiny {
+				for r := 0; r < reps; r++ {
+					g.Count("tiny plan runs")
+					g.Emit(fmt.Sprintf("%s,S%d,D%d,M0,T1 %s", t[:strings.Index(t, " ")], g.R.Intn(1<<30), []int{0, 4, 3, 5, 2, 1, 4, 0}[r%8], t[strings.Index(t, " ")+1:]))
+				}
 			}
 			n := 1000
 			if g.Thorough() {
